@@ -102,6 +102,12 @@ theorem tree_get_refines (c : Nat) (t : TreeMap) (k : Int) (hi : TreeMap.Inv c t
   unfold TreeMap.get
   rw [Tree.find_eq k t.root hi.1]; rfl
 
+/-- A store through the pointer returned by `GetPtr` replaces the value of a present key in place (and nothing
+else); `GetPtr` is nil exactly for absent keys; the invariant is kept. -/
+theorem tree_getptr_store_refines (c : Nat) (t : TreeMap) (k : Int) (v : Nat) (hi : TreeMap.Inv c t) :
+    (t.update k v).1.abs = specUpdate k v t.abs ∧ (t.update k v).2 = (specLookup k t.abs).isSome ∧
+    TreeMap.Inv c (t.update k v).1 := TreeMap.update_refines c t k v hi
+
 /-- `Front` returns the first entry (smallest key) and panics exactly on the empty map. -/
 theorem tree_front_refines (t : TreeMap) : t.front = t.abs.head? := Tree.findMin_eq t.root
 
@@ -118,7 +124,7 @@ theorem tree_validate_ok (c : Nat) (t : TreeMap) (hi : TreeMap.Inv c t) : t.root
   rw [Tree.validate_iff]
   exact ⟨hi.1, fun b hb => (by cases hb), fun b hb => (by cases hb)⟩
 
-/-- Any sequence of `Set`/`Delete` from the empty map: no panic, the contents are those of the reference map
+/-- Any sequence of `Set`/`Delete`/stores through `GetPtr` from the empty map: no panic, the contents are those of the reference map
 after the same sequence, and the invariant (BST + stored heights) holds. -/
 theorem tree_history_refines (ops : List MapOp) :
     ∃ t, TreeMap.run newLeafHeight TreeMap.empty ops = some t ∧ t.abs = specRun [] ops ∧
@@ -225,6 +231,17 @@ theorem circ_index_refines (s : CS) (hi : CS.Inv s) (pos : Int) :
     (0 ≤ pos → pos < s.abs.length → s.index pos = s.abs[pos.toNat]?) ∧
     (s.abs.length ≤ pos → s.index pos = none ∨ s.index pos = some 0) := CS.index_spec s hi pos
 
+/-- A store through `IndexRef(pos)` at a position inside the queue replaces exactly that element. -/
+theorem circ_indexref_store_refines (s : CS) (hi : CS.Inv s) (pos : Int) (v : Nat) (h0 : 0 ≤ pos)
+    (hl : pos < s.abs.length) :
+    ∃ s', s.indexSet pos v = some s' ∧ CS.Inv s' ∧ s'.abs = s.abs.set pos.toNat v ∧ s'.cap = s.cap := by
+  obtain ⟨els, rp, wp⟩ := s
+  obtain ⟨r, w, rfl, rfl, _⟩ := hi.nat
+  obtain ⟨p, rfl⟩ := Int.eq_ofNat_of_zero_le h0
+  rw [CS.abs_length] at hl
+  obtain ⟨s', e, i', a', l'⟩ := CS.indexSet_spec els r w hi p v (by simp only at hl; omega)
+  exact ⟨s', e, i', by rw [a']; simp, by simp only [CS.cap]; omega⟩
+
 /-- `Len` is the queue length, `Cap` bounds it. -/
 theorem circ_len_cap (s : CS) (hi : CS.Inv s) : s.len = s.abs.length ∧ (s.abs.length : Int) ≤ s.cap := by
   obtain ⟨els, rp, wp⟩ := s
@@ -268,27 +285,35 @@ theorem circ_swap_deepAssign (s o : CS) :
 
 /-- One step of any exported method on a pair of slices refines the pair-of-lists reference: invariants kept,
 contents as in the reference, observation allowed by the reference. -/
-theorem circ_step_refines (s o : CS) (hs : CS.Inv s) (ho : CS.Inv o) (op : QOp) :
+theorem circ_step_refines (s o : CS) (hs : CS.Inv s) (ho : CS.Inv o) (op : QOp) (hok : QOp.ok s.abs op) :
     CS.Inv (CS.apply (s, o) op).1.1 ∧ CS.Inv (CS.apply (s, o) op).1.2 ∧
     ((CS.apply (s, o) op).1.1.abs, (CS.apply (s, o) op).1.2.abs) = specQ (s.abs, o.abs) op ∧
-    QObsOk s.abs op (CS.apply (s, o) op).2 := CS.apply_refines s o hs ho op
+    QObsOk s.abs op (CS.apply (s, o) op).2 := CS.apply_refines s o hs ho op hok
 
 /-- Any history of exported calls on two initially empty slices: invariants hold at the end, the contents are those
-of the reference after the same history, and every observation along the way is allowed by the reference. -/
-theorem circ_history_refines (ops : List QOp) :
+of the reference after the same history, and every observation along the way is allowed by the reference.
+Guard `OpsOk` (decidable): stores through `IndexRef` happen only at positions inside the queue. -/
+theorem circ_history_refines (ops : List QOp) (hok : OpsOk ([], []) ops) :
     CS.Inv (CS.run (CS.empty, CS.empty) ops).1.1 ∧ CS.Inv (CS.run (CS.empty, CS.empty) ops).1.2 ∧
     ((CS.run (CS.empty, CS.empty) ops).1.1.abs, (CS.run (CS.empty, CS.empty) ops).1.2.abs) = ops.foldl specQ ([], []) ∧
     ObsListOk ([], []) ops (CS.run (CS.empty, CS.empty) ops).2 :=
-  CS.run_refines ops CS.empty CS.empty CS.empty_inv.1 CS.empty_inv.1
+  CS.run_refines ops CS.empty CS.empty CS.empty_inv.1 CS.empty_inv.1 hok
 
 /-- Panics only on the documented misuse: `PopFront`/`Front` on an empty queue, `Index` outside `[0, Len())`. -/
-theorem circ_panics_only_on_misuse (s o : CS) (hs : CS.Inv s) (ho : CS.Inv o) (op : QOp)
+theorem circ_panics_only_on_misuse (s o : CS) (hs : CS.Inv s) (ho : CS.Inv o) (op : QOp) (hok : QOp.ok s.abs op)
     (hp : (CS.apply (s, o) op).2 = .panic) :
     (op = .pop ∧ s.abs = []) ∨ (op = .front ∧ s.abs = []) ∨
-    (∃ pos, op = .index pos ∧ (pos < 0 ∨ (s.abs.length : Int) ≤ pos)) := by
-  obtain ⟨_, _, _, h⟩ := CS.apply_refines s o hs ho op
+    (∃ pos, (op = .index pos ∨ ∃ v, op = .indexSet pos v) ∧ (pos < 0 ∨ (s.abs.length : Int) ≤ pos)) := by
+  obtain ⟨_, _, _, h⟩ := CS.apply_refines s o hs ho op hok
   rw [hp] at h
   cases op with
+  | indexSet pos v =>
+    right; right; refine ⟨pos, Or.inr ⟨v, rfl⟩, ?_⟩
+    obtain ⟨_, h2⟩ := h
+    by_cases h0 : pos < 0
+    · exact Or.inl h0
+    · have := h2 (by omega) hok
+      cases this
   | push x => cases h
   | reserve n => cases h
   | clear => cases h
@@ -310,7 +335,7 @@ theorem circ_panics_only_on_misuse (s o : CS) (hs : CS.Inv s) (ho : CS.Inv o) (o
     | nil => rfl
     | cons x xs => rw [hh] at h; simp at h
   | index pos =>
-    right; right; refine ⟨pos, rfl, ?_⟩
+    right; right; refine ⟨pos, Or.inl rfl, ?_⟩
     obtain ⟨_, h2, _⟩ := h
     by_cases h0 : pos < 0
     · exact Or.inl h0
@@ -328,6 +353,7 @@ theorem circ_capacity (s o : CS) (hs : CS.Inv s) (op : QOp) (h1 : op ≠ .swap) 
 
 /-- The invariant and the wrap-around are exercised by a non-trivial state (hypotheses are not vacuous). -/
 example : (CS.run (CS.empty, CS.empty) [.reserve 3, .push 1, .push 2, .push 3, .pop, .pop, .push 4, .push 5]).1.1 =
-    ⟨[4, 5, 3], 2, 5⟩ ∧ CS.abs ⟨[4, 5, 3], 2, 5⟩ = [3, 4, 5] := by decide
+    ⟨[4, 5, 3], 2, 5⟩ ∧ CS.abs ⟨[4, 5, 3], 2, 5⟩ = [3, 4, 5] ∧
+    OpsOk ([], []) [.push 1, .indexSet 0 7, .indexSet (-1) 3, .pop] := by decide
 
 end TLVerif.Props.C41
